@@ -86,13 +86,24 @@ RemOk(h, t) == /\ hs[h].open /\ hs[h].write /\ RemCauses(hs[h].tab, t) = {}
                /\ LET r == HRemove(hs[h].tab, disk, t) IN
                     disk' = r.d /\ hs' = [hs EXCEPT ![h].tab = r.m]
                /\ clean' = (clean /\ hs[h].tab = disk.table) /\ UNCHANGED started
+RepOk(h, u) == /\ hs[h].open /\ hs[h].write /\ RepCauses(hs[h].tab, Blk(u)) = {}
+               /\ LET r == HReplace(hs[h].tab, disk, Blk(u)) IN
+                    r.ok /\ disk' = r.d /\ hs' = [hs EXCEPT ![h].tab = r.m]
+               /\ clean' = (clean /\ hs[h].tab = disk.table) /\ UNCHANGED started
+\* the removal done, the add refused (only possible through a stale copy): the call raises
+RepHalf(h, u) == /\ hs[h].open /\ hs[h].write /\ RepCauses(hs[h].tab, Blk(u)) = {}
+                 /\ LET r == HReplace(hs[h].tab, disk, Blk(u)) IN
+                      ~r.ok /\ disk' = r.d /\ hs' = [hs EXCEPT ![h].tab = r.m]
+                 /\ clean' = (clean /\ hs[h].tab = disk.table) /\ UNCHANGED started
+RepNo(h, u) == /\ hs[h].open /\ hs[h].write /\ RepCauses(hs[h].tab, Blk(u)) # {}
+               /\ UNCHANGED vars
 RemNo(h, t) == /\ hs[h].open /\ hs[h].write /\ RemCauses(hs[h].tab, t) # {}
                /\ UNCHANGED vars
 
 Next == \/ \E k \in 0..2 : Setup(k)
         \/ \E h \in Handles :
           \/ Enter(h, TRUE) \/ Enter(h, FALSE) \/ Exit(h)
-          \/ \E u \in Pay : AddOk(h, u) \/ AddNo(h, u)
+          \/ \E u \in Pay : AddOk(h, u) \/ AddNo(h, u) \/ RepOk(h, u) \/ RepNo(h, u) \/ RepHalf(h, u)
           \/ \E t \in Types : RemOk(h, t) \/ RemNo(h, t)
 Spec == Init /\ [][Next]_vars
 
@@ -104,6 +115,8 @@ InvRefines ==
   \A h \in Handles : (clean /\ Fresh(h)) =>
     /\ \A u \in Pay : AddCauses(hs[h].tab, Blk(u)) = {} =>
           LET r == HAdd(hs[h].tab, disk, Blk(u)) IN r.d = AddFile(disk, Blk(u)) /\ r.m = r.d.table
+    /\ \A u \in Pay : RepCauses(hs[h].tab, Blk(u)) = {} =>
+          LET r == HReplace(hs[h].tab, disk, Blk(u)) IN r.ok /\ r.d = ReplaceFile(disk, Blk(u)) /\ r.m = r.d.table
     /\ \A t \in Types : RemCauses(hs[h].tab, t) = {} =>
           LET r == HRemove(hs[h].tab, disk, t) IN r.d = RemoveFile(disk, t) /\ r.m = r.d.table
 
